@@ -42,23 +42,24 @@ Qed.
 
 (* ---- clause 2: the extractors return exactly the components ---- *)
 Lemma build_repo_form k : o_repo (expected k) <> None ->
-  exists r kw rest, o_repo (expected k) = Some r /\ build k = repo_dir r ++ SL :: kw ++ rest
+  exists r kw rest, o_repo (expected k) = Some r /\ build k = repo_dir r ++ sls kw ++ rest
     /\ (kw = s_manifests \/ kw = s_layers \/ kw = s_uploads)
     /\ (pk_ok k = true -> repo_ok r = true).
 Proof.
   destruct k; cbn [expected o_repo no_obs]; intros Hn; try congruence;
     match goal with |- exists r kw rest, Some ?r0 = Some r /\ _ => exists r0 end.
-  all: cbn [build pk_ok]; unfold sls.
-  all: try (exists s_manifests; eexists; split; [reflexivity|]; split; [rewrite <- !app_assoc; cbn [app]; rewrite <- ?app_assoc; reflexivity|]; split; [auto|]; intros H; repeat (apply andb_true_iff in H as [H ?]); assumption).
-  all: try (exists s_layers; eexists; split; [reflexivity|]; split; [rewrite <- !app_assoc; cbn [app]; rewrite <- ?app_assoc; reflexivity|]; split; [auto|]; intros H; repeat (apply andb_true_iff in H as [H ?]); assumption).
-  all: try (exists s_uploads; eexists; split; [reflexivity|]; split; [rewrite <- !app_assoc; cbn [app]; rewrite <- ?app_assoc; reflexivity|]; split; [auto|]; intros H; repeat (apply andb_true_iff in H as [H ?]); assumption).
+  all: cbn [build pk_ok].
+  all: do 2 eexists; split; [reflexivity|]; split; [reflexivity|]; split; [auto|];
+       intros H; repeat (apply andb_true_iff in H as [H ?]); assumption.
 Qed.
+Lemma sls_split kw rest : sls kw ++ rest = SL :: kw ++ SL :: rest.
+Proof. unfold sls. cbn [app]. rewrite <- app_assoc. reflexivity. Qed.
 
 Theorem repo_built k : pk_ok k = true -> get_repo (build k) = o_repo (expected k).
 Proof.
   intros Hk. destruct (o_repo (expected k)) as [r0|] eqn:E.
   - destruct (build_repo_form k) as (r & kw & rest & Er & Eb & Hkw & Hr); [congruence|].
-    rewrite E in Er. injection Er as ->. unfold get_repo, get_repo_with. rewrite Eb, get_repo_built by auto. reflexivity.
+    rewrite E in Er. injection Er as ->. unfold get_repo, get_repo_with. rewrite Eb, sls_split, get_repo_built by auto. reflexivity.
   - destruct k; try discriminate E. unfold get_repo, get_repo_with. rewrite repo_none by exact Hk. reflexivity.
 Qed.
 
@@ -67,8 +68,7 @@ Proof.
   intros Hk. unfold get_manifest_tag. destruct (has_tag k) eqn:E.
   - destruct k; try discriminate E; revert Hk; prep.
     + rewrite tag_current by assumption. reflexivity.
-    + rewrite tag_index by assumption. cbn [expected o_tag]. do 2 f_equal.
-      unfold s_index, s_current. reflexivity.
+    + rewrite tag_index by assumption. reflexivity.
   - rewrite tag_none by assumption. destruct k; try discriminate E; reflexivity.
 Qed.
 
@@ -120,3 +120,160 @@ Proof.
 Qed.
 Corollary observe_valid k : pk_valid k = true -> observe (build k) = expected k.
 Proof. intros H. apply observe_built, pk_valid_ok, H. Qed.
+
+(* ---- clause 3: whatever is accepted follows the layout ---- *)
+Lemma exec_shape r p c (S : list N -> list N -> list (list N) -> Prop) :
+  (forall t1 t2 c, D r t1 t2 c -> S t1 t2 c) -> exec r p = Some c -> exists t1 t2, p = t1 ++ t2 /\ S t1 t2 c.
+Proof. intros HS H. apply exec_sound in H as (t1 & t2 & -> & HD). eauto. Qed.
+Lemma exec_shape_anch r p c (S : list N -> list N -> list (list N) -> Prop) :
+  (forall t1 t2 c, D r t1 t2 c -> S t1 t2 c) -> (forall t1 t2 c, S t1 t2 c -> t2 = []) ->
+  exec r p = Some c -> S p [] c.
+Proof.
+  intros HS Ha H. apply exec_sound in H as (t1 & t2 & -> & HD). pose proof (HS _ _ _ HD) as X.
+  pose proof (Ha _ _ _ X). subst t2. rewrite app_nil_r. exact X.
+Qed.
+Lemma first_cap_some o c : first_cap o = Some c -> exists rest, o = Some (c :: rest).
+Proof. destruct o as [[|x l]|]; cbn; intros H; try discriminate. injection H as ->. eauto. Qed.
+
+Definition follows_layout (ty st p : list N) : Prop :=
+  (ty = pt_manifests /\ sh_mm p [] [st])
+  \/ (ty = pt_uploads /\ (exists t1 t2, p = t1 ++ t2 /\ sh_mu t1 t2 [st]) /\ (st = st_hashstates -> sh_muh p [] []))
+  \/ (ty = pt_layers /\ exists h, sh_layer p [] h st)
+  \/ (ty = pt_blobs /\ st = st_data /\ exists h, sh_blob p [] h).
+
+Theorem parse_rejects p ty st : parse_path p = Some (ty, st) -> follows_layout ty st p.
+Proof.
+  unfold parse_path, follows_layout. intros H.
+  destruct (match_manifests p) as [s|] eqn:E1.
+  { injection H as <- <-. left. split; [reflexivity|]. unfold match_manifests in E1.
+    apply first_cap_some in E1 as (rest & E1).
+    apply (exec_shape_anch _ _ _ sh_mm shape_mm) in E1; [|intros ? ? ? X; apply X].
+    pose proof E1 as (_ & pre & st' & Hc & _). injection Hc as -> ->. exact E1. }
+  destruct (match_uploads p) as [s|] eqn:E2.
+  { injection H as <- <-. right; left. split; [reflexivity|]. unfold match_uploads in E2.
+    destruct (first_cap (exec ast_match_uploads p)) as [s'|] eqn:E3; [|discriminate].
+    apply first_cap_some in E3 as (rest & E3).
+    apply (exec_shape _ _ _ sh_mu shape_mu) in E3 as (t1 & t2 & Hp & Hs).
+    pose proof Hs as (pre & u & st' & _ & Hc & _). injection Hc as -> ->.
+    destruct (str_eqb st' st_hashstates) eqn:E4.
+    - destruct (exec ast_match_uploads_hashstates p) as [c|] eqn:E5; [|discriminate]. injection E2 as <-.
+      split; [eauto|]. intros _.
+      apply (exec_shape_anch _ _ _ sh_muh shape_muh) in E5; [|intros ? ? ? X; apply X].
+      pose proof E5 as (_ & ? & ? & ? & _ & -> & _). exact E5.
+    - injection E2 as <-. split; [eauto|]. intros ->. discriminate E4. }
+  destruct (match_layers p) as [s|] eqn:E3.
+  { injection H as <- <-. right; right; left. split; [reflexivity|]. unfold match_layers in E3.
+    apply first_cap_some in E3 as (rest & E3).
+    apply (exec_shape_anch _ _ _ (fun t1 t2 c => exists h x, c = [x] /\ sh_layer t1 t2 h x) shape_ml) in E3.
+    - destruct E3 as (h & x & Hc & Hs). injection Hc as -> ->. eauto.
+    - intros ? ? ? (? & ? & _ & X). apply X. }
+  destruct (match_blobs p) as [s|] eqn:E4; [|discriminate].
+  injection H as <- <-. right; right; right. split; [reflexivity|]. unfold match_blobs in E4.
+  destruct (exec ast_match_blobs p) as [c|] eqn:E5; [|discriminate]. injection E4 as <-. split; [reflexivity|].
+  apply (exec_shape_anch _ _ _ (fun t1 t2 c => exists h, c = [] /\ sh_blob t1 t2 h) shape_mb) in E5.
+  - destruct E5 as (h & _ & Hs). eauto.
+  - intros ? ? ? (? & _ & X). apply X.
+Qed.
+
+Theorem repo_rejects p r : get_repo p = Some r -> exists t1 t2, p = t1 ++ t2 /\ sh_repo t1 [r].
+Proof.
+  unfold get_repo, get_repo_with. intros H. apply first_cap_some in H as (rest & H).
+  apply (exec_shape _ _ _ (fun t1 _ c => sh_repo t1 c) shape_repo) in H as (t1 & t2 & Hp & Hs).
+  pose proof Hs as (? & ? & ? & _ & Hc & _). injection Hc as -> ->. eauto.
+Qed.
+Theorem tag_rejects p t cur : get_manifest_tag p = Some (t, cur) -> exists x, sh_tag p [] [t; x] /\ cur = str_eqb x s_current.
+Proof.
+  unfold get_manifest_tag. intros H. destruct (exec ast_get_manifest_tag p) as [c|] eqn:E; [|discriminate].
+  apply (exec_shape_anch _ _ _ sh_tag shape_tag) in E; [|intros ? ? ? X; apply X].
+  pose proof E as (_ & ? & t' & x & -> & _). injection H as <- <-. eauto.
+Qed.
+Lemma digest_of_some o h : digest_of o = Some h -> (exists rest, o = Some (h :: rest)) /\ valid_sha256_hex h = true.
+Proof.
+  unfold digest_of. destruct (first_cap o) as [h'|] eqn:E; [|discriminate].
+  destruct (valid_sha256_hex h') eqn:V; [|discriminate]. intros H; injection H as <-.
+  split; [apply first_cap_some; exact E|exact V].
+Qed.
+Theorem blob_rejects p h : get_blob_digest p = Some h -> sh_blob p [] h /\ valid_sha256_hex h = true.
+Proof.
+  unfold get_blob_digest. intros H. apply digest_of_some in H as ((rest & E) & V). split; [|exact V].
+  apply (exec_shape_anch _ _ _ (fun t1 t2 c => exists h, c = [h] /\ sh_blob t1 t2 h) shape_blob_digest) in E.
+  - destruct E as (h' & Hc & Hs). injection Hc as -> ->. exact Hs.
+  - intros ? ? ? (? & _ & X). apply X.
+Qed.
+Theorem layer_rejects p h : get_layer_digest p = Some h -> (exists x, sh_layer p [] h x) /\ valid_sha256_hex h = true.
+Proof.
+  unfold get_layer_digest. intros H. apply digest_of_some in H as ((rest & E) & V). split; [|exact V].
+  apply (exec_shape_anch _ _ _ (fun t1 t2 c => exists h x, c = [h] /\ sh_layer t1 t2 h x) shape_layer_digest) in E.
+  - destruct E as (h' & x & Hc & Hs). injection Hc as -> ->. eauto.
+  - intros ? ? ? (? & ? & _ & X). apply X.
+Qed.
+Theorem manifest_rejects p h : get_manifest_digest p = Some h -> sh_mdigest p [] [h] /\ valid_sha256_hex h = true.
+Proof.
+  unfold get_manifest_digest. intros H. apply digest_of_some in H as ((rest & E) & V). split; [|exact V].
+  apply (exec_shape_anch _ _ _ sh_mdigest shape_mdigest) in E; [|intros ? ? ? X; apply X].
+  pose proof E as (_ & ? & ? & Hc & _). injection Hc as -> ->. exact E.
+Qed.
+Theorem uuid_rejects p u : get_upload_uuid p = Some u -> sh_uuid p [] [u].
+Proof.
+  unfold get_upload_uuid. intros H. apply first_cap_some in H as (rest & E).
+  apply (exec_shape_anch _ _ _ sh_uuid shape_uuid) in E; [|intros ? ? ? X; apply X].
+  pose proof E as (_ & ? & ? & ? & _ & Hc & _). injection Hc as -> ->. exact E.
+Qed.
+Theorem algo_rejects p a o : get_upload_algo_offset p = Some (a, o) -> sh_algo p [] [a; o].
+Proof.
+  unfold get_upload_algo_offset. intros H. destruct (exec ast_get_upload_algo_offset p) as [c|] eqn:E; [|discriminate].
+  apply (exec_shape_anch _ _ _ sh_algo shape_algo) in E; [|intros ? ? ? X; apply X].
+  pose proof E as (_ & ? & ? & ? & ? & _ & -> & _). injection H as <- <-. exact E.
+Qed.
+
+(* ---- the pattern as shipped (greedy): refuted on valid names ---- *)
+Definition w_repo_component := KTagCurrent [102; 111; 111; 47; 114; 101; 112; 111; 115; 105; 116; 111; 114; 105; 101; 115; 47; 98; 97; 114] [118; 49].
+  (* repository "foo/repositories/bar", tag "v1" *)
+Definition w_keyword_tag := KTagCurrent [102; 111; 111] s_layers.   (* repository "foo", tag "_layers" *)
+Lemma shipped_repo_component_refuted :
+  pk_valid w_repo_component = true /\ get_repo_prefix (build w_repo_component) = Some [98; 97; 114]   (* "bar" *)
+  /\ get_repo_prefix (build w_repo_component) <> o_repo (expected w_repo_component).
+Proof. vm_compute. repeat split; discriminate. Qed.
+Lemma shipped_keyword_tag_refuted :
+  pk_valid w_keyword_tag = true
+  /\ get_repo_prefix (build w_keyword_tag) = Some ([102; 111; 111] ++ sl s_manifests ++ sl s_tags)   (* "foo/_manifests/tags" *)
+  /\ get_repo_prefix (build w_keyword_tag) <> o_repo (expected w_keyword_tag).
+Proof. vm_compute. repeat split; discriminate. Qed.
+(* ... and the fixed pattern is right on both *)
+Lemma fixed_on_witnesses :
+  get_repo (build w_repo_component) = o_repo (expected w_repo_component)
+  /\ get_repo (build w_keyword_tag) = o_repo (expected w_keyword_tag).
+Proof. vm_compute. split; reflexivity. Qed.
+
+(* ---- the property on one observed case, executable form ---- *)
+Lemma str_eqb_eq a b : str_eqb a b = true -> a = b.
+Proof.
+  revert b; induction a as [|x a IH]; intros [|y b] H; cbn in H; try discriminate; [reflexivity|].
+  apply andb_true_iff in H as [H1 H2]. apply N.eqb_eq in H1. subst y. f_equal. auto.
+Qed.
+Lemma str_eqb_refl a : str_eqb a a = true.
+Proof. induction a as [|x a IH]; cbn; [reflexivity|]. rewrite N.eqb_refl. exact IH. Qed.
+Lemma opt_eqb_refl {A} (e : A -> A -> bool) : (forall x, e x x = true) -> forall o, opt_eqb e o o = true.
+Proof. intros He [x|]; cbn; auto. Qed.
+Lemma obs_eqb_refl o : obs_eqb o o = true.
+Proof.
+  destruct o. unfold obs_eqb. simpl.
+  rewrite !opt_eqb_refl; auto using str_eqb_refl.
+  all: intros [a b]; unfold pair_eqb; cbn; rewrite ?str_eqb_refl, ?eqb_reflx; reflexivity.
+Qed.
+Theorem check_sound path built : C38_check path built (observe path) = true.
+Proof.
+  destruct built as [k|]; [|reflexivity]. unfold C38_check.
+  destruct (str_eqb path (build k)) eqn:E; [|reflexivity].
+  destruct (pk_ok k) eqn:Hk; [|reflexivity]. cbn [andb negb orb].
+  apply str_eqb_eq in E. subst path. rewrite observe_built by exact Hk. apply obs_eqb_refl.
+Qed.
+
+(* non-vacuity: valid components exist for every kind, and the eight functions answer as expected *)
+Definition ex_repo := [108; 105; 98; 114; 97; 114; 121; 47; 114; 101; 112; 111; 115; 105; 116; 111; 114; 105; 101; 115; 47; 107; 114; 97; 107; 101; 110; 45; 49].  (* "library/repositories/kraken-1" *)
+Definition ex_hex := repeat 97 32 ++ repeat 49 32.   (* 32 x 'a' then 32 x '1' *)
+Definition ex_uuid := [49; 97; 50; 98; 45; 99; 51].  (* "1a2b-c3" *)
+Definition ex_kinds := [ KRevisions ex_repo; KRevision ex_repo ex_hex; KTags ex_repo; KTagCurrent ex_repo s_uploads;
+  KTagIndex ex_repo s_manifests ex_hex; KLayer true ex_repo ex_hex; KLayer false ex_repo ex_hex; KBlob ex_hex;
+  KUploadData ex_repo ex_uuid; KUploadStartedAt ex_repo ex_uuid; KUploadHashStates ex_repo ex_uuid s_sha256;
+  KUploadHashState ex_repo ex_uuid s_sha256 [52; 50] ].
